@@ -992,3 +992,170 @@ func init() {
 		return r
 	})
 }
+
+// ---------- lock-discipline monitor (C14) ----------
+
+func (ex *Exec) collectGuarded(v Value, seen map[interface{}]bool, cells *[]*Value, objs *[]interface{}) {
+	switch x := v.(type) {
+	case Ptr:
+		if x.cell != nil {
+			ex.collectCell(x.cell, seen, cells, objs)
+		} else if x.arr != nil {
+			ex.collectArr(x.arr, seen, cells, objs)
+		}
+	case SliceV:
+		if x.arr != nil {
+			ex.collectArr(x.arr, seen, cells, objs)
+		}
+	case *StructV:
+		for i := range x.f {
+			ex.collectCell(&x.f[i], seen, cells, objs)
+		}
+	case *ArrObj:
+		ex.collectArr(x, seen, cells, objs)
+	case *MapObj:
+		if x == nil || seen[x] {
+			return
+		}
+		seen[x] = true
+		*objs = append(*objs, x)
+		for _, e := range x.entries {
+			ex.collectGuarded(e.v, seen, cells, objs)
+		}
+	case IfaceV:
+		ex.collectGuarded(x.v, seen, cells, objs)
+	}
+}
+
+func (ex *Exec) collectCell(c *Value, seen map[interface{}]bool, cells *[]*Value, objs *[]interface{}) {
+	if seen[c] {
+		return
+	}
+	seen[c] = true
+	*cells = append(*cells, c)
+	ex.collectGuarded(*c, seen, cells, objs)
+}
+
+func (ex *Exec) collectArr(a *ArrObj, seen map[interface{}]bool, cells *[]*Value, objs *[]interface{}) {
+	if seen[a] {
+		return
+	}
+	seen[a] = true
+	if a.w >= 0 {
+		return // payload bytes are handed over through channels; their ownership is C15
+	}
+	for i := range a.elems {
+		ex.collectCell(&a.elems[i], seen, cells, objs)
+	}
+}
+
+func (ex *Exec) ifaceArgs(v Value) []Value {
+	sl, ok := v.(SliceV)
+	if !ok || sl.arr == nil {
+		return nil
+	}
+	n := int(sl.len.val)
+	out := make([]Value, n)
+	for i := 0; i < n; i++ {
+		out[i] = ex.arrRead(sl.arr, ex.c64(sl.off.val+uint64(i))).(IfaceV).v
+	}
+	return out
+}
+
+func init() {
+	guard := func(kind string) interceptFn {
+		return func(ex *Exec, fr *Frame, args []Value, site ssa.Instruction) Value {
+			if ex.monitor == nil {
+				ex.monitor = &lockMonitor{cells: map[*Value]*guardRule{}, objs: map[interface{}]*guardRule{}, reports: map[string]bool{}}
+				ex.monitorOn = false
+			}
+			r := &guardRule{name: ex.strArg(args[0]), kind: kind}
+			rootsArg := args[1]
+			if kind == "mutex" || kind == "rwmutex" {
+				lp := args[1].(IfaceV).v.(Ptr)
+				r.lock = lp.cell
+				r.rw = kind == "rwmutex"
+				rootsArg = args[2]
+			}
+			seen := map[interface{}]bool{}
+			// never descend into what a stop set names (registered before)
+			for k := range ex.monitor.stop {
+				seen[k] = true
+			}
+			var cells []*Value
+			var objs []interface{}
+			for _, root := range ex.ifaceArgs(rootsArg) {
+				if kind == "rwmutex" {
+					// shallow: the variable and the map object it holds
+					if p, ok := root.(Ptr); ok && p.cell != nil {
+						cells = append(cells, p.cell)
+						if m, ok := (*p.cell).(*MapObj); ok && m != nil {
+							objs = append(objs, m)
+						}
+					}
+					continue
+				}
+				if kind == "nowrite" || kind == "atomic" {
+					// shallow: the named variable (and, for a struct, its fields), nothing behind pointers
+					if p, ok := root.(Ptr); ok && p.cell != nil {
+						cells = append(cells, p.cell)
+						if sv, ok := (*p.cell).(*StructV); ok {
+							for i := range sv.f {
+								cells = append(cells, &sv.f[i])
+							}
+						}
+					}
+					continue
+				}
+				ex.collectGuarded(root, seen, &cells, &objs)
+			}
+			for _, c := range cells {
+				if _, dup := ex.monitor.cells[c]; !dup {
+					ex.monitor.cells[c] = r
+				}
+			}
+			for _, o := range objs {
+				if _, dup := ex.monitor.objs[o]; !dup {
+					ex.monitor.objs[o] = r
+				}
+			}
+			ex.counters["guarded-cells"] += len(cells)
+			return nil
+		}
+	}
+	reg("vf:vfGuard", guard("mutex"))
+	reg("vf:vfGuardRW", guard("rwmutex"))
+	reg("vf:vfGuardNoWrite", guard("nowrite"))
+	reg("vf:vfGuardAtomic", guard("atomic"))
+	reg("vf:vfGuardStop", func(ex *Exec, fr *Frame, args []Value, site ssa.Instruction) Value {
+		if ex.monitor == nil {
+			ex.monitor = &lockMonitor{cells: map[*Value]*guardRule{}, objs: map[interface{}]*guardRule{}, reports: map[string]bool{}}
+		}
+		if ex.monitor.stop == nil {
+			ex.monitor.stop = map[interface{}]bool{}
+		}
+		for _, v := range ex.ifaceArgs(args[0]) {
+			switch x := v.(type) {
+			case Ptr:
+				if x.cell != nil {
+					ex.monitor.stop[x.cell] = true
+				}
+			case *MapObj:
+				ex.monitor.stop[x] = true
+			case SliceV:
+				if x.arr != nil {
+					ex.monitor.stop[x.arr] = true
+				}
+			}
+		}
+		return nil
+	})
+	reg("vf:vfMonitorOn", func(ex *Exec, fr *Frame, args []Value, site ssa.Instruction) Value {
+		ex.monitorOn = true
+		return nil
+	})
+	reg("vf:vfMonitorOff", func(ex *Exec, fr *Frame, args []Value, site ssa.Instruction) Value {
+		ex.monitorOn = false
+		return nil
+	})
+}
